@@ -759,7 +759,7 @@ class Sort(EnvironmentFilter):
         if not interactions:
             return
 
-        if first and 'context' not in first:
+        if first and first.get('context') is None:
             yield from interactions
             return
 
